@@ -117,7 +117,9 @@ func mapPoints(g geom.Geom, f func(i int, p geom.Point) geom.Point) geom.Geom {
 	return rec(g)
 }
 
-func clone(g geom.Geom) geom.Geom { return mapPoints(g, func(_ int, p geom.Point) geom.Point { return p }) }
+func clone(g geom.Geom) geom.Geom {
+	return mapPoints(g, func(_ int, p geom.Point) geom.Point { return p })
+}
 
 func nPoints(g geom.Geom) int {
 	n := 0
